@@ -64,6 +64,7 @@ type Spec struct {
 	ParallelEntries int               `json:"parallel_entries"`
 	SQLSchema bool `json:"sql_schema"`
 	Gen             []string          `json:"generate"`
+	Goroutines      bool              `json:"goroutines"`
 }
 
 type KnownFinding struct {
